@@ -106,6 +106,10 @@ class NStep(Case):
 def cases(tier):
     cs = [NStep(2, 1), NStep(3, 1), NStep(3, 2, extra=0), NStep(2, 2), NStep(2, 2, extra=2, cap=3), NStep(2, 1, extra=3, cap=2),
           NStep(1, 2, extra=1), NStep(1, 1, extra=2, cap=2), NStep(4, 1, extra=0), NStep(5, 1, extra=0)]
+    # where the two aligned batches are consumed: Rainbow's learn() pairs the n-step reward and next observation with the n-step
+    # batch's OWN done flag (C18's harness)
+    from .c18_rainbow import RainbowLearn
+    cs += [RainbowLearn(2, 0, 1, per=False, nstep=True, combined=False)]
     if tier == "thorough":
         cs += [NStep(4, 2), NStep(5, 1, extra=2), NStep(3, 3, extra=1), NStep(6, 1, extra=0), NStep(3, 2, extra=3, cap=5), NStep(2, 3, extra=2, cap=4)]
     return cs
